@@ -17,7 +17,7 @@ EXTENDS ProtoValid, TLC, Json
 
 CONSTANTS
   Bases,       \* initial workspaces: small {"p2","p3","ed","p2p2","p3p2","p2p3","edp2","p3p3","p2pub","p3pub"},
-               \* rich {"R2","R3","RE"}
+               \* rich {"R2","R3","RE"}, with custom options {"O2","O3","OE"}
   Pkg1Ids,     \* packages of f1 in the small bases: subset of {"none","a","ab","b"}
   MaxAdds,     \* bound on the number of additive edits applied to a base
   GrowBases,   \* bases that additive edits are applied to
@@ -82,12 +82,30 @@ RichF1(syn, pkg) ==
           XFld("zh", 1, 7, "repeated", TRef(Abs(<<"b", "m">>))),
           [XEnum("b", 0) EXCEPT !.alias = TRUE], XVal("za", 9, 0), XVal("zb", 9, 1),
           XSvc("zs"), [XMtd("zr", 12, Rel(<<"m">>), Abs(<<"b", "m">>)) EXCEPT !.ss = TRUE],
-          XFld("zk", 1, 8, sing, TRef(Rel(<<"m">>))) >>
+          XFld("zk", 1, 8, IF syn = "proto2" THEN "required" ELSE sing, TRef(Rel(<<"m">>))) >>
        \o (IF p3 THEN << >> ELSE << XExt("zx", 0, 100, sing, Rel(<<"m">>), TScalar("int32")),
                                      XExt("zy", 1, 101, "repeated", Abs(pkg \o <<"m">>), TRef(Rel(<<"b">>))) >>)
        \o << XVal("zd", 9, 1) >>
        \o (IF syn = "proto2" THEN XGroup("Zg", 1, 9, "optional", 18) \o << XFld("zf", 18, 1, "optional", TScalar("int32")) >>
            ELSE << >>))
+(* option bases: f1 imports descriptor.proto, declares option extensions and uses them *)
+OptF1(syn, pkg) ==
+  LET sing == Singular(syn)
+      xl == IF syn = "editions" THEN "" ELSE "optional"
+  IN [XFile("f1.proto", pkg, syn, <<Imp(DescriptorPath, "plain")>>,
+        << XExt("zo", 0, 1000, xl, OptionsRef("field"), TScalar("int32")),
+           XExt("zp", 0, 1001, xl, OptionsRef("message"), TScalar("int32")),
+           XExt("zq", 0, 1002, xl, OptionsRef("file"), TScalar("int32")),
+           XExt("zv", 0, 1003, xl, OptionsRef("value"), TScalar("int32")),
+           WithOpts(XMsg("m", 0), <<OptUse(Rel(<<"zp">>))>>),
+           WithOpts(XFld("zf", 5, 1, sing, TScalar("int32")), <<OptUse(Abs(pkg \o <<"zo">>))>>),
+           XEnum("b", 0), WithOpts(XVal("za", 7, 0), <<OptUse(Rel(<<"zv">>))>>),
+           XExt("zx", 5, 1004, xl, OptionsRef("method"), TScalar("int32")),
+           XSvc("zs"), WithOpts(XMtd("zr", 10, Rel(<<"m">>), Rel(<<"m">>)), <<OptUse(Rel(<<"m", "zx">>))>>) >>)
+      EXCEPT !.opts = <<OptUse(Rel(<<"zq">>))>>]
+OptWs(b) == << OptF1(CASE b = "O2" -> "proto2" [] b = "O3" -> "proto3" [] OTHER -> "editions", <<"a">>), XDescriptorFile >>
+IsOptBase(b) == b \in {"O2", "O3", "OE"}
+
 RichWs(b) == CASE b = "R2" -> << RichF1("proto2", <<"a">>), F2Rich >>
                [] b = "R3" -> << RichF1("proto3", <<"a", "b">>), F2Rich >>
                [] OTHER    -> << RichF1("editions", <<"a">>), F2Rich >>
@@ -107,7 +125,7 @@ Accept(w2, mode) ==
            [] mode = "mut" -> Cardinality(b0) <= 1
            [] OTHER -> Cardinality(b0) <= 1) = TRUE
      /\ LET refs == AllRefs(sane)
-            b == b0 \cup RefBroken(sane, refs)
+            b == b0 \cup RefBroken(sane, refs) \cup OptBroken(sane, refs)
         IN /\ (CASE mode = "edit" -> b = {}
                  [] mode = "mut" -> Cardinality(b) = 1
                  [] OTHER -> (b = {} /\ okSize) \/ Cardinality(b) = 1) = TRUE
@@ -122,16 +140,21 @@ MutOK == tag = {} /\ base \in MutBases /\ nadd <= MutMaxN
 AddDecls(g, ds) == [ws EXCEPT ![g].decls = @ \o ds]
 SetDecl(g, d, dl) == [ws EXCEPT ![g].decls[d] = dl]
 
-UFiles == Files(ws)
+UFiles == {g \in Files(ws) : ~ws[g].builtin}
 MsgsOf(g) == OfKind(ws[g], "message")
 Depth(F, d) == IF d = 0 THEN 0 ELSE IF F.decls[d].parent = 0 THEN 1 ELSE 2   \* enough for the bound below
 
 (* spellings *)
 Suffixes(n) == {SubSeq(n, k, Len(n)) : k \in 1..Len(n)}
 SymSp(s) == {Rel(x) : x \in Suffixes(s.fqn)} \cup {Abs(s.fqn)}
-TypeSp == UNION {SymSp(s) : s \in {x \in AllDeclSyms(ws) : x.kind \in {"message", "enum"}}}
-MsgSp == UNION {SymSp(s) : s \in {x \in AllDeclSyms(ws) : x.kind = "message"}}
-WideSp == UNION {SymSp(s) : s \in {x \in AllDeclSyms(ws) : x.kind \in WideKinds}} \cup {Rel(p) : p \in AllPkgs(ws)}
+UserSyms == UNION {DeclSyms(ws, g) : g \in UFiles}
+UserPkgs == UNION {PkgPrefixes(ws[g].pkg) : g \in UFiles}
+TypeSp == UNION {SymSp(s) : s \in {x \in UserSyms : x.kind \in {"message", "enum"}}}
+MsgSp == UNION {SymSp(s) : s \in {x \in UserSyms : x.kind = "message"}}
+ExtSp == UNION {SymSp(s) : s \in {x \in UserSyms : x.kind = "ext"}}
+HasDescriptor == \E g \in Files(ws) : ws[g].builtin
+WideSp == UNION {SymSp(s) : s \in {x \in UserSyms : x.kind \in WideKinds}} \cup {Rel(p) : p \in UserPkgs}
+          \cup (IF HasDescriptor THEN {OptionsRef("field"), OptionsRef("message"), Rel(<<"google", "protobuf">>)} ELSE {})
           \cup {Rel(<<"c">>), Rel(<<"a", "c">>), Rel(<<"m", "c">>), Abs(<<"c">>)}
 TypeChoices == {TScalar(s) : s \in ScalarPool} \cup {TRef(sp) : sp \in TypeSp}
 
@@ -207,7 +230,7 @@ Focus(g) == IF nadd = 0 THEN FldsExts(g)          \* a base: every declaration i
 SpecialNums == {0, 19000, 19999, MaxFieldNum + 1}
 ContextNums(F, d) ==
   ({F.decls[x].num : x \in Flds(F) \cup ExtDecls(F)}
-   \cup UNION {{r[1], r[2]} : r \in UNION {Range(F.decls[m].rr) \cup Range(F.decls[m].xr) : m \in OfKind(F, "message")}}
+   \cup UNION {{r[1], r[2], r[2] + 1} : r \in UNION {Range(F.decls[m].rr) \cup Range(F.decls[m].xr) : m \in OfKind(F, "message")}}
    \cup {7}) \ SpecialNums
 MutSetNum == "SetNum" \in Muts /\ MutOK /\
   \E g \in UFiles : \E d \in FldsExts(g) :
@@ -217,7 +240,7 @@ MutSetLabel == "SetLabel" \in Muts /\ MutOK /\
   \E g \in UFiles : \E d \in Focus(g) : \E l \in Labels \ {ws[g].decls[d].label} :
     Accept(SetDecl(g, d, [ws[g].decls[d] EXCEPT !.label = l]), "mut")
 MutRetarget == "Retarget" \in Muts /\ MutOK /\
-  \E g \in UFiles : \E s \in {x \in Sites(ws[g]) : ws[g].decls[x[1]].gof = 0} :
+  \E g \in UFiles : \E s \in {x \in Sites(ws[g]) : IF x[1] = 0 THEN TRUE ELSE ws[g].decls[x[1]].gof = 0} :
     \E sp \in WideSp \ {SlotSpelling(ws[g], s[1], s[2])} :
     Accept([ws EXCEPT ![g] = SetSlot(@, s[1], s[2], sp)], "mut")
 MutSetSyntax == "SetSyntax" \in Muts /\ MutOK /\
@@ -287,6 +310,19 @@ AddGroup == "AddGroup" \in Edits /\ tag = {} /\
     IN Accept(AddDecls(g, XGroup(nm, p, FreeNum(ws[g], p), l, at)
                           \o << XFld("zf", at, 1, Singular(ws[g].syntax), TScalar("int32")) >>),
               IF "AddGroup" \in MutAdds /\ MutOK THEN "both" ELSE "edit")
+(* custom options: a use on an element, a new option extension *)
+OptCarriers(g) == {0} \cup {d \in Decls(ws[g]) : ws[g].decls[d].kind \in {"message", "field", "ext", "enum", "value", "service", "method"}
+                                                   /\ ~IsGroupDecl(ws[g].decls[d]) /\ Len(ws[g].decls[d].opts) < 2}
+AddOptUse == "AddOptUse" \in Edits /\ tag = {} /\ HasDescriptor /\
+  \E g \in UFiles : \E d \in OptCarriers(g) : \E sp \in ExtSp :
+    Accept(IF d = 0 THEN [ws EXCEPT ![g].opts = Append(@, OptUse(sp))]
+           ELSE [ws EXCEPT ![g].decls[d].opts = Append(@, OptUse(sp))],
+           IF "AddOptUse" \in MutAdds /\ MutOK THEN "both" ELSE "edit")
+AddOptExt == "AddOptExt" \in Edits /\ tag = {} /\ HasDescriptor /\
+  \E g \in UFiles : \E p \in {0} \cup MsgsOf(g) : \E nm \in ExtNames : \E num \in {1000, 1005} :
+    \E k \in {"file", "message", "field", "enum", "value", "service", "method"} :
+      Accept(AddDecls(g, << XExt(nm, p, num, IF ws[g].syntax = "editions" THEN "" ELSE "optional", OptionsRef(k), TScalar("int32")) >>),
+             IF "AddOptExt" \in MutAdds /\ MutOK THEN "both" ELSE "edit")
 (* plain <-> public *)
 MutSetImpKind == "SetImpKind" \in Muts /\ MutOK /\
   \E g \in UFiles : \E k \in 1..Len(ws[g].imports) :
@@ -296,10 +332,11 @@ Next == \/ AddMsg \/ AddEnum \/ AddVal \/ AddFld \/ AddMap \/ AddOneof \/ AddExt
         \/ AddImport \/ AddRange \/ AddRName \/ AddDflt \/ AddJson
         \/ MutSetNum \/ MutSetLabel \/ MutRetarget \/ MutSetSyntax \/ MutSetName \/ MutSetPkg
         \/ MutSetValNum \/ MutDropLeaf \/ MutSetMapKey \/ MutSetDflt
-        \/ AddAliasVal \/ MutDropAlias \/ AddDep \/ MutSetImpKind \/ AddGroup
+        \/ AddAliasVal \/ MutDropAlias \/ AddDep \/ MutSetImpKind \/ AddGroup \/ AddOptUse \/ AddOptExt
 
-InitWs == {<<b, BaseWs(b, PkgOf(p))>> : b \in {x \in Bases : ~IsRich(x)}, p \in Pkg1Ids}
+InitWs == {<<b, BaseWs(b, PkgOf(p))>> : b \in {x \in Bases : ~IsRich(x) /\ ~IsOptBase(x)}, p \in Pkg1Ids}
           \cup {<<b, RichWs(b)>> : b \in {x \in Bases : IsRich(x)}}
+          \cup {<<b, OptWs(b)>> : b \in {x \in Bases : IsOptBase(x)}}
 Init == /\ tag = {} /\ nadd = 0
         /\ \E i \in InitWs : base = i[1] /\ ws = i[2]
 Spec == Init /\ [][Next]_vars
@@ -312,6 +349,7 @@ BasesValid == nadd = 0 /\ tag = {} => (Broken(ws) = {} /\ CoveredX(Sane(ws), All
 Features(w) ==
   UNION {LET F == w[g] IN
            {"S-" \o F.syntax}
+           \cup (IF F.opts # <<>> THEN {"F-custom-option:file"} ELSE {})
            \cup (IF Len(F.imports) > 0 THEN {"F-import"} ELSE {})
            \cup (IF \E k \in 1..Len(F.imports) : F.imports[k].kind = "public" THEN {"F-import-public"} ELSE {})
            \cup UNION {LET dl == F.decls[d] IN
@@ -328,10 +366,11 @@ Features(w) ==
                          \cup (IF dl.alias THEN {"F-allow-alias"} ELSE {})
                          \cup (IF dl.dep THEN {"F-deprecated"} ELSE {})
                          \cup (IF dl.grp THEN {"F-group"} ELSE {})
+                         \cup (IF dl.opts # <<>> THEN {"F-custom-option:" \o dl.kind} ELSE {})
                          \cup (IF dl.kind = "field" /\ F.syntax = "proto3" /\ dl.label = "optional" THEN {"F-proto3-optional"} ELSE {})
                          \cup (IF dl.kind = "field" /\ InOneof(F, d) THEN {"F-oneof-member"} ELSE {})
                        : d \in Decls(F)}
-         : g \in Files(w)}
+         : g \in {h \in Files(w) : ~w[h].builtin}}
 
 Case ==
   LET sane == Sane(ws)
